@@ -284,7 +284,7 @@ class Episode:
         self.limit[t] = int(s.config.get(MAXRES, 3)) if isinstance(s.config.get(MAXRES, 3), int) else 3
         if self.kind.startswith("hbdeep_"):
             self.limit[t] = 9
-        e = {"a": "Suggest", "t": t}
+        e = {"a": "Suggest", "t": t, "clone": s.checkpoint_trial_id is not None}
         e.update(project(self.name, self.cs, s.config))
         self.ev.append(e)
         self.outputs.append(("new", t, sorted(s.config.items(), key=str),
